@@ -462,13 +462,19 @@ def forbidden_scan(rel_files=None):
     return hits
 
 
+COQC_FILE_TIMEOUT = int(os.environ.get('VERIF_COQC_TIMEOUT', '600'))
+
+
 def coq_build(targets, timeout=1500):
     """make -j of the given .vo targets (paths relative to coq/, e.g. theories/Props/C07.vo).
     Returns dict(ok, log, failed_file, failed_line, failed_lemma, seconds)."""
     with Lock('coqbuild'):
         coq_prepare()
         t0 = time.time()
-        rc, out, _ = sh(['make', '-j%d' % NPROC, '-k'] + targets, cwd=COQ, timeout=timeout)
+        # every coqc runs under its own time limit, so that one file that does not terminate cannot hold the
+        # build lock (and everybody waiting for it) until the overall limit
+        mk = ['make', '-j%d' % NPROC, '-k', 'COQC=timeout %d coqc' % COQC_FILE_TIMEOUT]
+        rc, out, _ = sh(mk + targets, cwd=COQ, timeout=timeout)
         if rc != 0 and ('No rule to make target' in out or 'No such file' in out):
             # a file listed in _CoqProject vanished (scratch file of a concurrent run): re-list and retry once
             try:
@@ -476,7 +482,7 @@ def coq_build(targets, timeout=1500):
             except OSError:
                 pass
             coq_prepare()
-            rc, out, _ = sh(['make', '-j%d' % NPROC, '-k'] + targets, cwd=COQ, timeout=timeout)
+            rc, out, _ = sh(mk + targets, cwd=COQ, timeout=timeout)
         res = dict(ok=(rc == 0), log=out, seconds=time.time() - t0, failed_file=None, failed_line=None,
                    failed_lemma=None, error=None)
         if rc != 0:
